@@ -198,6 +198,17 @@ namespace hv
         }
     };
     template <int K>
+    struct FnP    // one structured parameter (a pair of TS<Int>) in, a pair out - the body may return the parameter itself
+    {
+        static constexpr auto name = "fnp";
+        static Port<S_PAIR> compose(Wiring &w, Port<S_PAIR> q)
+        {
+            PortVal r;
+            interpret(w, ctx().graphs.at("fn" + std::to_string(K)), {PortVal{q.erased(), PT::Other, "pair"}}, &r);
+            return Port<S_PAIR>{w, r.ref};
+        }
+    };
+    template <int K>
     struct FnK1   // key-consuming
     {
         static constexpr auto name = "fnk1";
@@ -307,6 +318,7 @@ namespace hv
         if (n == "fnk1") return dispatch_k<FnK1>(k, [](WiredFn f) { return f; });
         if (n == "fnk2") return dispatch_k<FnK2>(k, [](WiredFn f) { return f; });
         if (n == "fnd") return dispatch_k<FnD>(k, [](WiredFn f) { return f; });
+        if (n == "fnp") return dispatch_k<FnP>(k, [](WiredFn f) { return f; });
         if (n == "fn0") return dispatch_k<Fn0>(k, [](WiredFn f) { return f; });
         if (n == "sum") return fn<VSum2>();
         if (n == "max") return fn<VMax2>();
